@@ -37,10 +37,6 @@ AVOID_DOC = {
                              "%AsyncFromSyncIteratorPrototype%.throw reject with a TypeError (after closing) when the sync iterator has no "
                              "`throw` method, where ES2024/V8 11.3 reject with the thrown value: under the flag `yield*` in an async generator "
                              "is not applied to arrays / strings (their iterators have no `throw`); sync generators stay.",
-    "async_yield_star_return": "open finding C16-K1: a return() request that reaches an async generator suspended in `yield*` takes one "
-                               "tick too many in boa.  Under the flag an async generator whose body contains `yield*` is never iterated "
-                               "by for-await / another yield* (which may call return() on it) and its objects never get a .return() request; "
-                               "next()/throw() requests on it stay in the stream.",
 }
 
 PREAMBLE = [
@@ -78,11 +74,12 @@ class Ctx:
 
 
 class Program:
-    def __init__(self, stmts, final, features, tags):
+    def __init__(self, stmts, final, features, tags, spin=0):
         self.stmts = stmts
         self.final = final
         self.features = features
         self.tags = tags
+        self.spin = spin   # iterations of the synchronous busy loop (0: none); lets large instruction budgets expire
 
     @property
     def src(self):
@@ -106,7 +103,8 @@ class Gen:
         self.defs = []     # deferred objects: dK.p / dK.res / dK.rej
         self.proms = []    # promise-valued globals
         self.afuncs = []   # call templates of async functions: "af3(%s)"
-        self.agens = []    # call templates of async generator functions
+        self.agens = []    # (call template, body contains yield*) of async generator functions; the yield* mark served the
+        #                    avoid flag of findings C16-K1/K4 (fixed in e5d123b) and is kept for future shape flags
         self.gobjs = []    # async generator objects
         self.pclasses = []  # Promise subclasses
         self.labeln = 0
@@ -358,8 +356,6 @@ class Gen:
         r = self.r
         g, ystar = gy
         k = r.below(100)
-        if ystar and "async_yield_star_return" in self.avoid and 60 <= k < 82:
-            k = 0
         if k < 60:
             return "%s.next(%s)" % (g, self.val(c, err_ok=False))
         if k < 82:
@@ -698,8 +694,6 @@ class Gen:
         r = self.r
         sync_any = "async_from_sync_close" not in self.avoid
         agens = self.agens
-        if "async_yield_star_return" in self.avoid:
-            agens = [a for a in agens if not a[1]]
         opts = [("asyncobj", 4), ("syncgen", 3)]
         if sync_any or not star:
             opts += [("array", 6), ("string", 1)]
@@ -919,7 +913,14 @@ class Gen:
         top = Ctx(after=False, once=True)
         stmts = list(PREAMBLE)
         nst = r.range(4, 11)
+        # a synchronous busy loop somewhere between the statements: about 45 budget units per round (measured), so
+        # that budgets up to 2^20 run out inside the script (15% of the programs)
+        spin = r.choice([100, 1000, 10000, 30000]) if r.chance(0.15) else 0
+        spin_at = r.below(nst) if spin else -1
         for i in range(nst):
+            if i == spin_at:
+                self.use("sync_busy_loop")
+                stmts.append("for (var s0 = 0; s0 < %d; s0++) { n = (n + s0 * 3) %% 1000003; }" % spin)
             self.fuel = r.range(6, 22)
             opts = [("defer", 3 if len(self.defs) < 3 else 1), ("afunc", 4 if len(self.afuncs) < 5 else 1), ("prom", 5), ("chain", 8), ("aiife", 4),
                     ("late", 1), ("selfres", 0.3), ("agen", 3 if len(self.agens) < 3 else 0.5)]
@@ -939,7 +940,7 @@ class Gen:
         stmts.append("'done:' + n;")
         for s in stmts:
             assert "\n" not in s
-        return Program(stmts, FINAL, self.feat, self.tags)
+        return Program(stmts, FINAL, self.feat, self.tags, spin)
 
 
 def generate(seed, index, avoid=frozenset(), label="c16"):
